@@ -147,8 +147,18 @@ func whose(v map[string]any) (string, int) {
 }
 
 // clientHandler records (call nonce, sequence number, method, params) for the call the notification belongs to.
-func (g *registry) clientHandler(n *mcp.JSONRPCNotification) error {
+func (g *registry) clientHandler(n *mcp.JSONRPCNotification) error { return g.record(n, -1) }
+
+// handlerInst is a handler instance with an identity: what it receives is recorded with its tag ("by").
+func (g *registry) handlerInst(tag int) mcp.NotificationHandler {
+	return func(n *mcp.JSONRPCNotification) error { return g.record(n, tag) }
+}
+
+func (g *registry) record(n *mcp.JSONRPCNotification, tag int) error {
 	v := viewOf(n)
+	if tag >= 0 {
+		v["by"] = float64(tag)
+	}
 	nonce, seq := whose(v)
 	_, rc := g.get(nonce)
 	if rc == nil {
